@@ -52,6 +52,22 @@ def main(prop, tier, seed, replay):
     extra = []
     if replay:
         rj = json.load(open(replay))
+        # a site reported by a variant script carries that variant's prefix ("scalar:", "threads:", "tsan:"): replay it there
+        for v in [x for vs in spec.get("variants", {}).values() for x in vs]:
+            prefix = v[2] if len(v) > 2 else v[0] + ":"
+            if rj["site"].startswith(prefix):
+                site = rj["site"][len(prefix):]
+                for s in sorted(set(c["stage"] for c in rj["cases"] if c.get("stage"))):
+                    extra += ["--stage", s]
+                rep = run_one(spec, prop, tier, seed, v[0], v[1], deadline, extra + ["--replay-site", site])
+                if rep is None:
+                    return 2
+                n = rep.get("violation_counts", {}).get(site, 0)
+                print(("REPLAYED: site %s fails again (%d cases)" % (rj["site"], n)) if n else ("NOT REPRODUCED: site %s holds" % rj["site"]))
+                for x in rep.get("violations", []):
+                    if x["site"] == site:
+                        print("  input=%s expected=%s got=%s" % (x["input"], x["expected"], x["got"]))
+                return 1 if n else 0
         for s in sorted(set(c["stage"] for c in rj["cases"])):
             extra += ["--stage", s]
         extra += ["--replay-site", rj["site"]]
